@@ -1810,7 +1810,7 @@ theorem methods_ne_zero (ms : List (Gap × LMember)) (hm : ms.any (fun p => p.2.
     exactly the tree it denotes. -/
 theorem New_render (L : LIdl) (hfit : L.fits = true) : New L.render = .ok L.tree := by
   simp only [LIdl.fits, Bool.and_eq_true, Bool.not_eq_true'] at hfit
-  obtain ⟨⟨⟨⟨⟨⟨⟨⟨hg0, hig1b⟩, hig1ne⟩, hname⟩, hms⟩, huniq⟩, hmeth⟩, hE⟩, hfc⟩ := hfit
+  obtain ⟨⟨⟨⟨⟨⟨⟨⟨hg0, hig1w⟩, hig1ne⟩, hname⟩, hms⟩, huniq⟩, hmeth⟩, hE⟩, hfc⟩ := hfit
   have hsat := New_sat L.render
   unfold New at hsat ⊢
   have hw0 := initSt_wf L.render
@@ -1838,14 +1838,10 @@ theorem New_render (L : LIdl) (hfit : L.fits = true) : New L.render = .ok L.tree
     obtain ⟨c, w, hcw, hc⟩ := interfaceName_head hname
     obtain ⟨s2, h3, hr3, hd3⟩ := advance_fwd (s := s.adv tInterface (renderGap L.ig1 (L.name ++
         renderMembers L.members (renderGap L.gEnd (renderFinal L.finalComment))))) (g := L.ig1)
-      (tail := L.name ++ renderMembers L.members (renderGap L.gEnd (renderFinal L.finalComment))) rfl (blank_wf _ hig1b)
+      (tail := L.name ++ renderMembers L.members (renderGap L.gEnd (renderFinal L.finalComment))) rfl hig1w
       (by rw [hcw]; exact tailOk_append hc) hnc2.of_bind
     have hst3 := sat_ok (advance_sat hst2.1) h3
     rw [bind_ok_eq h3] at hnc2 ⊢
-    have hdoc2 : s2.lastComment = docOfStart L.g0 := by
-      rw [gapDoc_blank _ _ hig1b] at hd3
-      have := congrArg Prod.snd hd3
-      simpa [dst, St.adv, hdoc1] using this
     obtain ⟨d, r, hdr, hdl⟩ := members_nonempty_head L.members L.gEnd L.finalComment hms hmeth
     have h4 := readInterfaceName_fwd hname hr3 (Or.inr ⟨d, r, hdr, hdl⟩) hnc2.of_bind
     have hst4 := sat_ok (readInterfaceName_sat hst3.1) h4
@@ -1862,7 +1858,7 @@ theorem New_render (L : LIdl) (hfit : L.fits = true) : New L.render = .ok L.tree
       hms (Or.inl rfl) (by rw [← renderMembers_eq]; rfl) hst4.1 (by have := hst4.1.rest_le_len; simp only at this ⊢; omega)
       hdirty (fun _ _ h => absurd h List.not_mem_nil) huniq
     rw [bind_ok_eq h5]
-    exact ⟨s4, by simp [hdoc2]⟩
+    exact ⟨s4, by simp [St.adv, hdoc1]⟩
   obtain ⟨s4, hidl⟩ := hidl
   rw [bind_ok_eq hidl]
   simp only
